@@ -48,6 +48,90 @@ Proof.
   unfold contains in IH'. destruct (find_sub restart_tag s); [discriminate | reflexivity].
 Qed.
 
+(* ------------------------------------------------------------------ occurrences of a longer pattern *)
+Lemma is_prefix_iff p : forall s, is_prefix p s = true <-> exists r, s = p ++ r.
+Proof.
+  induction p as [|x p IH]; intros s; cbn [is_prefix app].
+  - split; [intros _; exists s; reflexivity | reflexivity].
+  - destruct s as [|y s]; [split; [discriminate | intros [r E]; discriminate E]|].
+    rewrite andb_true_iff, N.eqb_eq, IH. split.
+    + intros [-> [r ->]]. exists r. reflexivity.
+    + intros [r E]. injection E as -> ->. split; [reflexivity | exists r; reflexivity].
+Qed.
+
+Lemma find_sub_split p : forall s i, find_sub p s = Some i -> exists a b, s = a ++ p ++ b /\ length a = i.
+Proof.
+  induction s as [|x s IH]; intros i H; cbn [find_sub] in H.
+  - destruct (is_prefix p []) eqn:E; [|discriminate]. injection H as <-. apply is_prefix_iff in E. destruct E as [r E].
+    exists [], r. split; [exact E | reflexivity].
+  - destruct (is_prefix p (x :: s)) eqn:E.
+    + injection H as <-. apply is_prefix_iff in E. destruct E as [r E]. exists [], r. split; [exact E | reflexivity].
+    + destruct (find_sub p s) as [j|] eqn:Ej; [|discriminate]. injection H as <-.
+      destruct (IH j eq_refl) as [a [b [-> <-]]]. exists (x :: a), b. split; reflexivity.
+Qed.
+
+Lemma contains_intro p a b : contains p (a ++ p ++ b) = true.
+Proof.
+  unfold contains. induction a as [|x a IH]; cbn [app].
+  - assert (E : is_prefix p (p ++ b) = true) by apply sk_is_prefix_app.
+    destruct (p ++ b) as [|y r]; cbn [find_sub]; rewrite E; reflexivity.
+  - cbn [find_sub]. destruct (is_prefix p (x :: a ++ p ++ b)); [reflexivity|].
+    destruct (find_sub p (a ++ p ++ b)); [reflexivity | discriminate IH].
+Qed.
+
+Lemma contains_longer q p s : contains (q ++ p) s = true -> contains p s = true.
+Proof.
+  unfold contains at 1. destruct (find_sub (q ++ p) s) as [i|] eqn:E; [intros _ | discriminate].
+  apply find_sub_split in E. destruct E as [a [b [-> _]]]. rewrite <- !app_assoc, (app_assoc a q). apply contains_intro.
+Qed.
+
+(* no occurrence starts within U *)
+Lemma find_sub_app_skip P : forall U R, (forall a b, U = a ++ b -> b <> [] -> is_prefix P (b ++ R) = false) ->
+  find_sub P (U ++ R) = match find_sub P R with Some i => Some (length U + i) | None => None end.
+Proof.
+  induction U as [|c U IH]; intros R H; cbn [app length Nat.add]; [destruct (find_sub P R); reflexivity|].
+  cbn [find_sub]. pose proof (H [] (c :: U) eq_refl ltac:(discriminate)) as E0. cbn [app] in E0. rewrite E0.
+  rewrite IH; [destruct (find_sub P R); reflexivity|].
+  intros a b E Hb. apply (H (c :: a) b); [rewrite E; reflexivity | exact Hb].
+Qed.
+
+Lemma tag_no_uscore : ~ In uscore restart_tag.
+Proof. unfold uscore, restart_tag. cbn [In]. intros X. repeat (destruct X as [X|X]; [discriminate X|]). exact X. Qed.
+
+Lemma stamp_tag_not_in_under fixed T T' R' :
+  length T = 20 -> length T' = 20 -> ~ In dot T' ->
+  contains (T ++ restart_tag) fixed = false ->
+  forall a b, under fixed = a ++ b -> b <> [] -> is_prefix (T ++ restart_tag) (b ++ T' ++ R') = false.
+Proof.
+  intros LT LT' HD' Hc a b EU Hb.
+  destruct (is_prefix (T ++ restart_tag) (b ++ T' ++ R')) eqn:E; [exfalso|reflexivity].
+  apply is_prefix_iff in E. destruct E as [rest E]. rewrite <- app_assoc in E.
+  assert (EU' : exists b', b = b' ++ [uscore] /\ fixed = a ++ b').
+  { destruct (exists_last Hb) as [b' [z ->]]. unfold under in EU. destruct fixed as [|f0 fr].
+    - cbn [app] in EU. symmetry in EU. apply app_eq_nil in EU. destruct EU as [_ EU]. apply app_eq_nil in EU. destruct EU as [_ EU]. discriminate EU.
+    - rewrite app_assoc in EU. apply app_inj_tail in EU. destruct EU as [EF <-]. exists b'. split; [reflexivity | exact EF]. }
+  destruct EU' as [b' [-> EF]]. clear EU Hb.
+  apply app_eq_app in E. destruct E as [l [[E1 E2]|[E1 E2]]].
+  - apply app_eq_app in E2. destruct E2 as [l2 [[E3 E4]|[E3 E4]]].
+    + destruct l as [|l0 lr].
+      * cbn [app] in E3. subst l2. destruct T' as [|t0 T'r]; [discriminate LT'|].
+        unfold restart_tag in E4. cbn [app] in E4. injection E4 as E4 _. apply HD'. left. exact E4.
+      * destruct (@exists_last _ (l0 :: lr) ltac:(discriminate)) as [l' [z El]]. rewrite El in *.
+        rewrite app_assoc in E1. apply app_inj_tail in E1. destruct E1 as [_ <-].
+        apply tag_no_uscore. rewrite E3. apply in_or_app. left. apply in_or_app. right. left. reflexivity.
+    + subst l. destruct l2 as [|l0 lr].
+      * rewrite app_nil_r in E1. change restart_tag with ([46; 114; 101; 115; 116; 97; 114; 116] ++ [45])%N in E1.
+        rewrite app_assoc in E1. apply app_inj_tail in E1. destruct E1 as [_ E1]. discriminate E1.
+      * destruct (@exists_last _ (l0 :: lr) ltac:(discriminate)) as [l3 [z El]]. rewrite El in *.
+        rewrite !app_assoc in E1. apply app_inj_tail in E1. destruct E1 as [E1 _].
+        rewrite E1 in EF. rewrite EF, <- !app_assoc in Hc. rewrite (app_assoc T), contains_intro in Hc. discriminate Hc.
+  - apply app_eq_app in E2. destruct E2 as [l2 [[E3 E4]|[E3 E4]]].
+    + destruct l2 as [|z l2].
+      * rewrite app_nil_r in E3. subst l. rewrite E1, !app_length in LT. cbn [length] in LT. lia.
+      * unfold restart_tag in E4. cbn [app] in E4. injection E4 as E4 _. subst z. apply HD'. rewrite E3. apply in_or_app. right. left. reflexivity.
+    + rewrite E1, E3, !app_length in LT. cbn [length] in LT. lia.
+Qed.
+
 (* ------------------------------------------------------------------ keys and names *)
 (* a closed file is identified by the second of its creation and its position among the files of that second:
    0 = no restart counter, S m = restart counter m *)
@@ -108,19 +192,52 @@ Proof.
 Qed.
 
 (* ------------------------------------------------------------------ the hypothesis on the configured name parts *)
-(* neither the fixed name part nor "." ++ suffix contains ".restart-" (the code looks for the first occurrence of this
-   text in the whole file name, see the counterexamples in TsTheorems.v) *)
+(* The code looks for the restart counter of the siblings behind the first occurrence of <ts> ++ ".restart-" in the whole
+   file name, <ts> being the time stamp infix asked for (before the repair: behind the first ".restart-", see the examples in
+   TsTheorems.v).  What is still needed:
+   - the fixed name part does not contain a time stamp infix followed by ".restart-" (a basename like
+     "a_r2024-02-29_23-59-58.restart-7"; "a.restart-7" is fine),
+   - nor does the suffix,
+   - and the suffix does not start with "restart-" (the name <ts>.restart-5 of the first file of a second, with the suffix
+     "restart-5", reads like a sibling with restart counter 5; see TsTheorems.tag_in_suffix_shifts_counters). *)
+Definition has_stamp_tag (s : bytes) : Prop := exists e t, in_years e t /\ contains (tsx e t ++ restart_tag) s = true.
+Definition tag_ok (c : config) : Prop :=
+  ~ has_stamp_tag (fixed0 c) /\ ~ has_stamp_tag (sfxs (c_spec c)) /\ is_prefix restart_tag (sfxs (c_spec c)) = false.
+
+(* the former hypothesis - neither the fixed name part nor "." ++ suffix contains ".restart-" - is a special case *)
 Definition tag_free (c : config) : Prop :=
   contains restart_tag (fixed0 c) = false /\ contains restart_tag (sfxs (c_spec c)) = false.
 
-Lemma under_tsx_no_tag c e t : tag_free c -> in_years e t -> contains restart_tag (under (fixed0 c) ++ tsx e t) = false.
+Lemma no_tag_no_stamp_tag s : contains restart_tag s = false -> ~ has_stamp_tag s.
+Proof. intros H [e [t [_ X]]]. apply contains_longer in X. congruence. Qed.
+
+(* a short text does not contain a time stamp *)
+Lemma short_no_stamp_tag s : length s < 29 -> ~ has_stamp_tag s.
 Proof.
-  intros [Hf _] H. pose proof (tsx_no_dot e t H) as Hd. unfold under. destruct (fixed0 c) as [|f0 fr] eqn:Ef.
-  - cbn [app]. apply no_dot_no_tag. exact Hd.
-  - rewrite <- app_assoc. apply contains_tag_app; [exact Hf | |].
-    + apply no_dot_no_tag. cbn [app In]. intros [X|X]; [discriminate X | exact (Hd X)].
-    + intros h r E. cbn [app] in E. injection E as <- _. unfold restart_tag, uscore. cbn [tl In].
-      intros X. repeat (destruct X as [X|X]; [discriminate X|]). exact X.
+  intros H [e [t [Y X]]]. unfold contains in X. destruct (find_sub (tsx e t ++ restart_tag) s) as [i|] eqn:E; [|discriminate].
+  apply find_sub_split in E. destruct E as [a [b [-> _]]]. rewrite !app_length, (tsx_length e t Y) in H. change (length restart_tag) with 9 in H. lia.
+Qed.
+
+Lemma tag_free_ok c : tag_free c -> tag_ok c.
+Proof.
+  intros [Hf Hs]. split; [apply no_tag_no_stamp_tag, Hf|]. split; [apply no_tag_no_stamp_tag, Hs|].
+  destruct (sfxs (c_spec c)) as [|h r]; [reflexivity|]. apply contains_cons_false in Hs. apply Hs.
+Qed.
+
+Lemma no_stamp_tag_contains s e t : ~ has_stamp_tag s -> in_years e t -> contains (tsx e t ++ restart_tag) s = false.
+Proof. intros H Y. destruct (contains (tsx e t ++ restart_tag) s) eqn:E; [|reflexivity]. exfalso. apply H. exists e, t. auto. Qed.
+
+(* <ts> ++ ".restart-" does not start within the fixed name part and its underscore when another time stamp follows *)
+Lemma stamp_find_under c e t t' R :
+  ~ has_stamp_tag (fixed0 c) -> in_years e t -> in_years e t' ->
+  find_sub (tsx e t ++ restart_tag) (under (fixed0 c) ++ tsx e t' ++ R)
+  = match find_sub (tsx e t ++ restart_tag) (tsx e t' ++ R) with Some i => Some (length (under (fixed0 c)) + i) | None => None end.
+Proof.
+  intros Hf Y Y'. apply find_sub_app_skip. apply stamp_tag_not_in_under.
+  - apply tsx_length, Y.
+  - apply tsx_length, Y'.
+  - exact (tsx_no_dot e t' Y').
+  - apply no_stamp_tag_contains; assumption.
 Qed.
 
 Lemma sfxs_head_ok sp h r : sfxs sp = h :: r -> ~ In h (tl restart_tag).
@@ -129,20 +246,42 @@ Proof.
   intros X. repeat (destruct X as [X|X]; [discriminate X|]). exact X.
 Qed.
 
-Lemma kname_plain_no_tag c e t : tag_free c -> in_years e t -> contains restart_tag (kname c e (t, 0)) = false.
+(* the first file of a second is no restart sibling *)
+Lemma kname_plain_no_tag c e t : tag_ok c -> in_years e t -> contains (tsx e t ++ restart_tag) (kname c e (t, 0)) = false.
 Proof.
-  intros T H. rewrite kname_shape by exact H. cbn [fst snd ktail app]. rewrite app_assoc.
-  apply contains_tag_app; [apply under_tsx_no_tag; assumption | apply T | apply sfxs_head_ok].
+  intros [Hf [Hs Hp]] Y. rewrite kname_shape by exact Y. cbn [fst snd ktail app].
+  unfold contains. rewrite (stamp_find_under c e t t _ Hf Y Y).
+  rewrite find_sub_app_skip.
+  - pose proof (no_stamp_tag_contains _ e t Hs Y) as X. unfold contains in X.
+    destruct (find_sub (tsx e t ++ restart_tag) (sfxs (c_spec c))); [discriminate X | reflexivity].
+  - intros a b Et Hb. destruct (is_prefix (tsx e t ++ restart_tag) (b ++ sfxs (c_spec c))) eqn:E; [exfalso | reflexivity].
+    apply is_prefix_iff in E. destruct E as [rest E]. rewrite <- app_assoc in E. rewrite Et in E. apply app_eq_app in E. destruct E as [l [[E1 E2]|[E1 E2]]].
+    + (* b = (a ++ b) ++ l *)
+      assert (L : length b = length ((a ++ b) ++ l)) by (rewrite <- E1; reflexivity). rewrite !app_length in L.
+      assert (La : a = []) by (destruct a; [reflexivity | cbn [length] in L; lia]).
+      assert (Ll : l = []) by (destruct l; [reflexivity | cbn [length] in L; lia]).
+      subst a l. cbn [app] in E2.
+      assert (X : is_prefix restart_tag (sfxs (c_spec c)) = true) by (apply is_prefix_iff; exists rest; symmetry; exact E2).
+      congruence.
+    + (* a ++ b = b ++ l, sfxs = l ++ ".restart-" ++ rest *)
+      destruct l as [|z l].
+      * cbn [app] in E2. assert (X : is_prefix restart_tag (sfxs (c_spec c)) = true) by (apply is_prefix_iff; exists rest; exact E2).
+        congruence.
+      * apply (tsx_no_dot e t Y). rewrite Et, E1. apply in_or_app. right. left.
+        unfold sfxs in E2. destruct (fsfx (c_spec c)); [|discriminate E2]. cbn [app] in E2. injection E2 as E2 _. symmetry. exact E2.
 Qed.
 
-Lemma kname_restart_find c e t m : tag_free c -> in_years e t ->
-  kname c e (t, S m) = (under (fixed0 c) ++ tsx e t) ++ restart_tag ++ restart_digits (N.of_nat m) ++ sfxs (c_spec c)
-  /\ find_sub restart_tag (kname c e (t, S m)) = Some (length (under (fixed0 c) ++ tsx e t)).
+Lemma kname_restart_find c e t m : ~ has_stamp_tag (fixed0 c) -> in_years e t ->
+  kname c e (t, S m) = under (fixed0 c) ++ tsx e t ++ restart_tag ++ restart_digits (N.of_nat m) ++ sfxs (c_spec c)
+  /\ find_sub (tsx e t ++ restart_tag) (kname c e (t, S m)) = Some (length (under (fixed0 c))).
 Proof.
-  intros T H.
-  assert (E : kname c e (t, S m) = (under (fixed0 c) ++ tsx e t) ++ restart_tag ++ restart_digits (N.of_nat m) ++ sfxs (c_spec c)).
-  { rewrite kname_shape by exact H. cbn [fst snd ktail]. rewrite <- !app_assoc. reflexivity. }
-  split; [exact E|]. rewrite E. apply sk_find_tag_app. apply under_tsx_no_tag; assumption.
+  intros Hf Y.
+  assert (E : kname c e (t, S m) = under (fixed0 c) ++ tsx e t ++ restart_tag ++ restart_digits (N.of_nat m) ++ sfxs (c_spec c)).
+  { rewrite kname_shape by exact Y. cbn [fst snd ktail]. rewrite <- !app_assoc. reflexivity. }
+  split; [exact E|]. rewrite E, (stamp_find_under c e t t _ Hf Y Y).
+  assert (P : is_prefix (tsx e t ++ restart_tag) (tsx e t ++ restart_tag ++ restart_digits (N.of_nat m) ++ sfxs (c_spec c)) = true).
+  { rewrite (app_assoc (tsx e t)). apply sk_is_prefix_app. }
+  destruct (tsx e t ++ restart_tag ++ restart_digits (N.of_nat m) ++ sfxs (c_spec c)) as [|x r]; cbn [find_sub]; rewrite P; f_equal; lia.
 Qed.
 
 Lemma fs_take_digits_app d rest : all_digits d = true -> (forall h r, rest = h :: r -> is_digit h = false) ->
@@ -153,11 +292,12 @@ Proof.
   - cbn [all_digits] in Hd. apply andb_prop in Hd. destruct Hd as [Hx Hd]. rewrite Hx, (IH Hd). reflexivity.
 Qed.
 
-Lemma restart_number_kname c e t m : tag_free c -> in_years e t -> (N.of_nat m <= usize_max)%N ->
-  restart_number (kname c e (t, S m)) = Some (N.of_nat m).
+Lemma restart_number_kname c e t m : ~ has_stamp_tag (fixed0 c) -> in_years e t -> (N.of_nat m <= usize_max)%N ->
+  restart_number (tsx e t) (kname c e (t, S m)) = Some (N.of_nat m).
 Proof.
   intros T H Hm. destruct (kname_restart_find c e t m T H) as [E F]. unfold restart_number. rewrite F, E.
-  rewrite sk_skipn_app. change (skipn 9 (restart_tag ++ restart_digits (N.of_nat m) ++ sfxs (c_spec c)))
+  rewrite <- Nat.add_assoc, sk_skipn_app, sk_skipn_app.
+  change (skipn 9 (restart_tag ++ restart_digits (N.of_nat m) ++ sfxs (c_spec c)))
     with (restart_digits (N.of_nat m) ++ sfxs (c_spec c)).
   rewrite fs_take_digits_app; [|apply restart_digits_all|].
   - rewrite parse_uint_digits; [|apply restart_digits_nonempty | apply restart_digits_all].
@@ -167,7 +307,8 @@ Proof.
   - intros h r. unfold sfxs. destruct (fsfx (c_spec c)); [|discriminate]. intros X. injection X as <- _. reflexivity.
 Qed.
 
-Lemma kname_restart_contains c e t m : tag_free c -> in_years e t -> contains restart_tag (kname c e (t, S m)) = true.
+Lemma kname_restart_contains c e t m : ~ has_stamp_tag (fixed0 c) -> in_years e t ->
+  contains (tsx e t ++ restart_tag) (kname c e (t, S m)) = true.
 Proof. intros T H. unfold contains. rewrite (proj2 (kname_restart_find c e t m T H)). reflexivity. Qed.
 
 (* ------------------------------------------------------------------ the listing with the filter "infix = <ts>" *)
@@ -221,31 +362,19 @@ End Listing.
 
 (* the name of the compressed file that collision_free_infix looks for does not exist *)
 Lemma gz_name_absent c e f keys ts :
-  tag_free c -> in_years e ts -> (forall k, In k keys -> in_years e (fst k)) -> dir_is c e f keys ->
+  in_years e ts -> (forall k, In k keys -> in_years e (fst k)) -> dir_is c e f keys ->
   lookup f (kname c e (ts, 0) ++ dot :: gz_sfx) = None.
 Proof.
-  intros T Hts Hk [_ Hon]. destruct (lookup f (kname c e (ts, 0) ++ dot :: gz_sfx)) as [j|] eqn:E; [exfalso|reflexivity].
+  intros Hts Hk [_ Hon]. destruct (lookup f (kname c e (ts, 0) ++ dot :: gz_sfx)) as [j|] eqn:E; [exfalso|reflexivity].
   rewrite kname_shape in E by exact Hts. cbn [fst snd ktail app] in E.
   destruct (Hon _ _ E) as [X|[k [Ik X]]].
   - rewrite cname_shape, <- !app_assoc in X. apply app_inv_head in X. exact (tsx_app_not_cur e ts _ _ Hts X).
   - pose proof (Hk k Ik) as Yk. rewrite (kname_shape c e k Yk), <- !app_assoc in X. apply app_inv_head in X.
     apply app_inj_len in X; [|rewrite !tsx_length by assumption; reflexivity]. destruct X as [_ X].
-    destruct (snd k) as [|m]; cbn [ktail app] in X.
-    + apply (f_equal (@length N)) in X. rewrite app_length in X. cbn [length] in X. lia.
-    + (* "." ++ suffix would have to start with ".restart-" *)
-      destruct T as [_ Ts]. rewrite <- !app_assoc in X.
-      assert (P : is_prefix restart_tag (sfxs (c_spec c) ++ dot :: gz_sfx) = true) by (rewrite X; apply sk_is_prefix_app).
-      apply sk_is_prefix_split in P. destruct P as [P|[p2 [P1 P2]]].
-      * unfold contains in Ts. destruct (sfxs (c_spec c)) as [|h r]; [discriminate P|]. cbn [find_sub] in Ts. rewrite P in Ts. discriminate.
-      * destruct p2 as [|q p2].
-        -- rewrite app_nil_r in P1. rewrite <- P1 in Ts. vm_compute in Ts. discriminate.
-        -- destruct (sfxs (c_spec c)) as [|h r] eqn:Es.
-           ++ cbn [app] in P1. rewrite <- P1 in P2. vm_compute in P2. discriminate.
-           ++ apply is_prefix_cons_head in P2. subst q.
-              assert (Hq : In dot (tl restart_tag)).
-              { rewrite P1. cbn [app tl]. apply in_or_app. right. left. reflexivity. }
-              unfold restart_tag, dot in Hq. cbn [tl In] in Hq.
-              repeat (destruct Hq as [Hq|Hq]; [discriminate Hq|]). exact Hq.
+    apply (f_equal (@length N)) in X. destruct (snd k) as [|m]; cbn [ktail app] in X.
+    + rewrite app_length in X. cbn [length] in X. lia.
+    + (* "." ++ suffix ++ ".gz" is shorter than ".restart-" ++ digits ++ "." ++ suffix *)
+      rewrite !app_length in X. change (length (dot :: gz_sfx)) with 3 in X. change (length restart_tag) with 9 in X. lia.
 Qed.
 
 (* THE CHARACTERISATION.  The directory holds exactly n files with the time stamp asked for - necessarily
@@ -253,7 +382,7 @@ Qed.
    The answer is the next name of this sequence: <ts> for n = 0, <ts>.restart-0000 for n = 1, <ts>.restart-(n-1) else.
    No bound of 10000 on the counters: beyond 9999 the text just has more digits. *)
 Theorem collision_free_infix_ts c e off f keys ts n :
-  tag_free c -> in_years e ts -> (forall k, In k keys -> in_years e (fst k)) -> dir_is c e f keys ->
+  tag_ok c -> in_years e ts -> (forall k, In k keys -> in_years e (fst k)) -> dir_is c e f keys ->
   (forall m, In (ts, m) keys <-> m < n) -> (N.of_nat n <= usize_max)%N ->
   collision_free_infix off (c_spec c) (fixed0 c) f (tsx e ts) = Some (Some (infix_of e (ts, n))).
 Proof.
@@ -262,7 +391,7 @@ Proof.
   set (rel := related_files f (fsfx (c_spec c)) (fixed0 c)).
   set (unc := filter (qf off (fsfx (c_spec c)) (fixed0 c) (IFEq (tsx e ts)) (fsfx (c_spec c))) rel).
   set (cmp := filter (qf off (fsfx (c_spec c)) (fixed0 c) (IFEq (tsx e ts)) (Some gz_sfx)) rel).
-  set (sibs := filter (fun x => contains restart_tag x) (unc ++ cmp)).
+  set (sibs := filter (fun x => contains (tsx e ts ++ restart_tag) x) (unc ++ cmp)).
   (* what is listed carries this time stamp *)
   assert (A : forall x, In x (unc ++ cmp) -> exists m, m < n /\ x = kname c e (ts, m)).
   { intros x I. apply in_app_or in I.
@@ -278,14 +407,14 @@ Proof.
     - unfold is_reg_file, file_of. rewrite Lj, Pd. reflexivity.
     - rewrite kname_shape by exact Hts. apply is_prefix_under. }
   (* the restart numbers found: 0 .. n-2 *)
-  assert (R : forall v, In v (filter_map_opt restart_number sibs) <-> exists i, i < n - 1 /\ v = N.of_nat i).
+  assert (R : forall v, In v (filter_map_opt (restart_number (tsx e ts)) sibs) <-> exists i, i < n - 1 /\ v = N.of_nat i).
   { intros v. rewrite filter_map_opt_in. split.
     - intros [x [Ix Ex]]. apply filter_In in Ix. destruct Ix as [Ix Cx]. destruct (A x Ix) as [m [Hm ->]].
       destruct m as [|m]; [rewrite kname_plain_no_tag in Cx by assumption; discriminate|].
-      rewrite restart_number_kname in Ex by (assumption || lia). injection Ex as <-. exists m. split; [lia | reflexivity].
+      rewrite restart_number_kname in Ex by (assumption || apply T || lia). injection Ex as <-. exists m. split; [lia | reflexivity].
     - intros [i [Hi ->]]. exists (kname c e (ts, Datatypes.S i)). split.
-      + apply filter_In. split; [apply B; lia | apply kname_restart_contains; assumption].
-      + apply restart_number_kname; [assumption | assumption | lia]. }
+      + apply filter_In. split; [apply B; lia | apply kname_restart_contains; [apply T | assumption]].
+      + apply restart_number_kname; [apply T | assumption | lia]. }
   rewrite (max_opt_range _ _ R).
   (* the three tests *)
   assert (E1 : lookup f (as_name (c_spec c) (fixed0 c) (Some (tsx e ts))) = None <-> n = 0).
@@ -295,7 +424,7 @@ Proof.
       destruct (Hon _ _ L) as [X|[k [Ik X]]]; [exact (kname_not_cname c e (ts, 0) Hts X)|].
       apply kname_inj in X; [|exact Hts | apply Hk; exact Ik]. subst k. apply Hn in Ik. lia. }
   change (as_name (c_spec c) (fixed0 c) (Some (tsx e ts)) ++ dot :: gz_sfx) with (kname c e (ts, 0) ++ dot :: gz_sfx).
-  rewrite (gz_name_absent c e f keys ts T Hts Hk D). cbn [orb].
+  rewrite (gz_name_absent c e f keys ts Hts Hk D). cbn [orb].
   destruct n as [|[|n']].
   - rewrite (proj2 E1 eq_refl). cbn [orb].
     assert (Es : sibs = []).
